@@ -66,6 +66,8 @@ def main():
         core.make_counterexample_message = _mk
 
         timeout = o.timeout if not twin else min(o.timeout, 30.0)
+        if os.environ.get('VERIF_TIMEOUT_CAP'):
+            timeout = min(timeout, float(os.environ['VERIF_TIMEOUT_CAP']))
         optset = AnalysisOptionSet(
             analysis_kind=[AnalysisKind.PEP316],
             per_condition_timeout=float(timeout),
